@@ -27,6 +27,7 @@ pub fn blocks(thorough: bool) -> Vec<Block> {
         b.push(Block::new(Universe::new("U_a1{a,1}", &["a", "1"], 2, 0, false), class_cfgs(&[0, R, I]), "64 class subsets x {{}, r, i}"));
         b.push(Block::new(Universe::new("U_adv(A_gc)", A_GC, 2, 1, false), class_cfgs(&[0, R]), "64 class subsets x {{}, r}"));
         b.push(Block::new(Universe::new("U_tok{\\d,1,\\,d}", &["\\d", "1", "\\", "d"], 2, 2, false), class_cfgs(&[0, R]), "64 class subsets x {{}, r}"));
+        b.push(Block::new(Universe::new("U_tok{\\d,1,\\,d}", &["\\d", "1", "\\", "d"], 3, 2, false), vec![Cfg::new(D | R), Cfg::new(D | W | R), Cfg::new(D | NS | R)], "d+r, d+w+r, d+S+r"));
         b.push(Block::new(Universe::new("U_adv(A_gcm)", A_GCM, 2, 1, false), class_cfgs(&[0]), "64 class subsets"));
         b.push(Block::new(u_prefix_suffix(), class_cfgs(&[0]), "64 class subsets"));
         b.push(Block::new(Universe::new("U_i{U+0130,a,-,1}", &["\u{130}", "a", "-", "1"], 2, 2, false), class_cfgs(&[I, I | R]), "64 class subsets x {i, i+r} (test cases that keep their upper-case form)"));
